@@ -704,6 +704,12 @@ class Translator:
                     raise Unsupported("generator %s not consumed exactly once by the next statement" % x)
                 out.append("SAssign %s %s" % (lst([cstr(x)]), self.comp("CList", s.value.generators, s.value.elt)))
                 continue
+            if (isinstance(s, ast.Assign) and len(s.targets) == 1 and isinstance(s.targets[0], (ast.Tuple, ast.List))
+                    and isinstance(s.value, ast.GeneratorExp)):
+                # a, b = (e for x in it): the unpacking consumes the generator at once - a list comprehension
+                out.append("SAssign %s %s" % (lst([cstr(n) for n in target_names(s.targets[0])]),
+                                              self.comp("CList", s.value.generators, s.value.elt)))
+                continue
             if isinstance(s, ast.Expr) and isinstance(s.value, ast.Constant) and isinstance(s.value.value, str):
                 continue   # docstring / stray string
             if isinstance(s, ast.Assign):
@@ -1371,7 +1377,20 @@ def translate(path, names):
                     tops = [b for b in n.body if isinstance(b, ast.Assign) and len(b.targets) == 1
                             and isinstance(b.targets[0], ast.Name) and b.targets[0].id == h
                             and isinstance(b.value, ast.Call)]
-                    if len(occ) != 1 or len(tops) != 1 or occ[0] is not tops[0].targets[0]:
+                    if len(occ) == 1 and len(tops) == 1 and occ[0] is tops[0].targets[0]:
+                        continue
+                    # or: bound in BOTH branches of one top-level `if` (the last statement of each branch), each
+                    # time to the result of a call, and nowhere else
+                    def last_bind(block):
+                        b = block[-1] if block else None
+                        if (isinstance(b, ast.Assign) and len(b.targets) == 1 and isinstance(b.targets[0], ast.Name)
+                                and b.targets[0].id == h and isinstance(b.value, ast.Call)):
+                            return b.targets[0]
+                        return None
+                    ifs = [b for b in n.body if isinstance(b, ast.If) and last_bind(b.body) is not None
+                           and last_bind(b.orelse) is not None]
+                    if not (len(occ) == 2 and len(ifs) == 1
+                            and {id(o) for o in occ} == {id(last_bind(ifs[0].body)), id(last_bind(ifs[0].orelse))}):
                         raise Unsupported("state-changing calls on %s, which is neither a parameter nor a local "
                                           "bound once to the result of a call and used for nothing else" % h)
             if len(tr.handles) > 1:
